@@ -365,7 +365,7 @@ class TreeBuilder(object):
         foster parented?"""
         node = self.openElements[-1]
         return (node.name in tableInsertModeElements and
-                node.namespace == namespaces["html"])
+                node.namespace == self.defaultNamespace)
 
     def getTableMisnestedNodePosition(self):
         """Get the foster parent element, and sibling to insert before
